@@ -22,6 +22,7 @@ type Plan struct {
 }
 
 var (
+	reAmt = regexp.MustCompile(`[0-9][0-9.]* (H|pS|nS|uS|mS|SC|KS|MS|GS|TS|SF)\b`)
 	reHex = regexp.MustCompile(`[0-9a-f]{16,}`)
 	reNum = regexp.MustCompile(`[0-9][0-9.,]*( ?(H|pS|nS|uS|mS|SC|KS|MS|GS|TS|SF)\b)?`)
 )
@@ -31,7 +32,8 @@ func NormErr(err error) string {
 	if err == nil {
 		return ""
 	}
-	s := reHex.ReplaceAllString(err.Error(), "#")
+	s := reAmt.ReplaceAllString(err.Error(), "AMT")
+	s = reHex.ReplaceAllString(s, "#")
 	s = reNum.ReplaceAllString(s, "N")
 	if len(s) > 160 {
 		s = s[:160]
